@@ -546,7 +546,27 @@ func c09Metadata(r *core.Run, idx int, rng *rand.Rand) {
 		l.Issuer = sp.GetEntityID()
 		s2 := ssoSend{Path: env.PathSLO, Binding: "post", XML: l.XML(rng)}
 		call2, _ := s2.do(e)
-		for _, c := range []*env.Call{call, call2} {
+		// replies that have to be delivered to the registered consumer: a request refused after its consumer was chosen,
+		// and the callback of a stored request naming each registered consumer
+		bad := validAuthn(rng, d)
+		bad.Issuer = sp.GetEntityID()
+		bad.Destination = "https://elsewhere.example/SSO"
+		s3 := ssoSend{Binding: "redirect", XML: bad.XML(rng), HasRelay: true, Relay: "r"}
+		call3, _ := s3.do(e)
+		calls := []*env.Call{call, call2, call3}
+		if sp.Metadata != nil && sp.Metadata.SPSSODescriptor != nil {
+			for i, acs := range sp.Metadata.SPSSODescriptor.AssertionConsumerService {
+				if i >= 4 {
+					break
+				}
+				sc := randScenario(rng, fmt.Sprintf("MKc9m%d", i), false)
+				sc.Host = ""
+				sc.S.ACS, sc.S.Binding = acs.Location, acs.Binding
+				sc.install(e.W)
+				calls = append(calls, sc.callback(e))
+			}
+		}
+		for _, c := range calls {
 			r.Count("requests", 1)
 			if c.Panic != "" {
 				r.Violate(core.Violation{Clause: "panic", Class: "request_after_metadata|" + label, Reason: firstLine(c.Panic) + " @ " + panicSite(c.Stack), Workload: wl, Index: idx, Case: map[string]any{"edit": label, "metadata": clipS(string(doc), 3000)}, Observed: c.Describe()})
@@ -580,6 +600,18 @@ func c09Metadata(r *core.Run, idx int, rng *rand.Rand) {
 			try([]byte(n2.Render("")), fmt.Sprintf("cert%d+second_descriptor", i))
 		}
 		r.EvalBulk(int64(2*len(certs)), int64(2*len(certs)))
+	case 2:
+		// consumer and logout locations that are no URLs a parser accepts
+		odd := []string{"https://sp.example/acs\nnext-line", " https://sp.example/acs", "https://sp.example/{tenant}/acs", "https://sp.example/%zz", "https://sp.example:port/acs", "http://[::1", "://", "%", "\x7f", "", "https://sp.example/a b", "https://user:pa ss@sp.example/", "https://sp.example/acs#frag", "mailto:x@sp.example", "//sp.example/acs", "https://sp.example/acs?%"}
+		for i, loc := range odd {
+			for _, b := range []string{spsim.BindRedirect, spsim.BindPost} {
+				d2 := *d
+				d2.ACS = []spsim.ACS{{Binding: b, Location: loc, Index: "0"}}
+				d2.SLO = []spsim.SLO{{Binding: spsim.BindPost, Location: loc}}
+				try(d2.XML(), fmt.Sprintf("odd_location%d", i))
+			}
+		}
+		r.EvalBulk(int64(2*len(odd)), int64(2*len(odd)))
 	default:
 		x := d.XML()
 		for k := 0; k < 200; k++ {
